@@ -670,6 +670,7 @@ class Class(Node):
                         # Next search packages for unqualified imports (slow, but assuming not common)
                         if "*" in self.imports:
                             c = None
+                            found_comp_ref = None
                             for package_ref in self.imports["*"].components:
                                 imported_comp_ref = package_ref.concatenate(
                                     ComponentRef(name=component_ref.name)
@@ -678,11 +679,13 @@ class Class(Node):
                                 try:
                                     # Avoid infinite recursion with search_imports = False
                                     c = self._find_class(imported_comp_ref, search_imports=False)
+                                    found_comp_ref = imported_comp_ref
                                 except (KeyError, ClassNotFoundError):
                                     pass
                             if c is not None:
-                                # Store result for next lookup
-                                self.imports[component_ref.name] = imported_comp_ref
+                                # Store result for next lookup (the package it was found in,
+                                # not the last package tried)
+                                self.imports[component_ref.name] = found_comp_ref
                                 return c
                             else:
                                 raise ClassNotFoundError
